@@ -140,6 +140,53 @@ def model_check(ctx):
         ctx.stage("negative-control", cfg=c, error=neg["error"])
 
 
+
+def idle_extension(ctx):
+    """Growth beyond the listed properties (ConnIdle.tla): idle connections are closed by the cleaning
+    timer, active ones are not.  Informational: recorded in the evidence, never a verdict on C16."""
+    res = run_tlc(ctx, "ConnIdle", "ConnIdle_MC.cfg", workers=4, timeout=300)
+    require_mc_ok(ctx, res, "ConnIdle (extension)")
+    port = free_port(socket.SOCK_STREAM)
+    cfg = http_config(port, 1, 1, True)
+    cfg["cleaning"]["max_connection_idle"] = 2
+    cfg["cleaning"]["connection_cleaning_interval"] = 1
+    t = Tracker(ctx, "http", cfg, "c16_idle")
+    out = {}
+    try:
+        tcp_wait_ready(("127.0.0.1", port), tracker=t)
+        a = HttpConn("127.0.0.2", ("127.0.0.1", port))
+        b = HttpConn("127.0.0.3", ("127.0.0.1", port))
+        a.send_split(request_bytes(announce_path(1, 5000)), [])
+        a.read_reply()
+        t_last = time.monotonic()
+        failed = 0
+        closed_after = None
+        a.sock.settimeout(0.05)
+        for i in range(14):
+            b.send_split(request_bytes(announce_path(1, 5001)), [])
+            if b.read_reply().get("outcome") != "reply":
+                failed += 1
+            if closed_after is None:
+                try:
+                    if a.sock.recv(10) == b"":
+                        closed_after = time.monotonic() - t_last
+                except socket.timeout:
+                    pass
+                except OSError:
+                    closed_after = time.monotonic() - t_last
+            time.sleep(0.5)
+        out = {"idle_connection_closed_after_s": round(closed_after, 2) if closed_after is not None else None,
+               "active_connection_requests": 14, "active_connection_failures": failed,
+               "expected": "closed between max_idle-1 = 1 s and max_idle+interval+1 = 4 s (+slack); active one stays"}
+        out["ok"] = closed_after is not None and 0.9 <= closed_after <= 5.5 and failed == 0
+        a.close()
+        b.close()
+    finally:
+        t.stop()
+    ctx.coverage.setdefault("extensions", {})["ConnIdle"] = out
+    log("EXTENSION ConnIdle (not a verdict on C16): %s" % out)
+
+
 def run(ctx):
     rnd = random.Random(ctx.seed + 160)
     model_check(ctx)
@@ -172,6 +219,8 @@ def run(ctx):
                 "validates framing (status, Content-Length = bytes following, nothing extra) and bodies",
     })
     ctx.add_sample(calls[:2])
+    if not ctx.quick():
+        idle_extension(ctx)
     ctx.assumptions += ["pipelined requests are outside the statement; TLS is not exercised",
                         "multi-hash scrapes are issued at quiescence (the code does not make them atomic across torrents)"]
 
